@@ -2,6 +2,7 @@ package props
 
 import (
 	"fmt"
+	"github.com/remieven/ysgo"
 	"github.com/remieven/ysgo/variable"
 	"sort"
 	"strconv"
@@ -36,23 +37,24 @@ var curKinds = []string{"absent", "number", "boolean", "string"}
 
 func (c03) Thresholds(tier string) map[string]int64 {
 	th := map[string]int64{
-		"histories":                                     2500,
-		"statements":                                    30000,
-		"failing-statements":                            2000,
-		"store-unchanged-on-failure":                    2000,
-		"host-writes":                                   3000,
-		"host-write-read-back":                          1500,
-		"host-write-new-variable":                       500,
-		"statement-executed-again":                      3000,
-		"recording-store-runs":                          1000,
-		"default-store-runs":                            1000,
-		"typed-slot-checks":                             20000,
-		"compound-on-absent-variable":                   200,
-		"restore-in-mid-history":                        300,
-		"declare-from-function-call":                    300,
-		"re-executed-assignments":                       2500,
-		"re-executed-assignment-refused-on-type-change": 1000,
-		"two-runners-over-one-store":                    1500,
+		"histories":                                       2500,
+		"statements":                                      30000,
+		"failing-statements":                              2000,
+		"store-unchanged-on-failure":                      2000,
+		"host-writes":                                     3000,
+		"host-write-read-back":                            1500,
+		"host-write-new-variable":                         500,
+		"statement-executed-again":                        3000,
+		"recording-store-runs":                            1000,
+		"default-store-runs":                              1000,
+		"typed-slot-checks":                               20000,
+		"compound-on-absent-variable":                     200,
+		"restore-in-mid-history":                          300,
+		"declare-from-function-call":                      300,
+		"re-executed-assignments":                         2500,
+		"re-executed-assignment-refused-on-type-change":   1000,
+		"two-runners-over-one-store":                      1500,
+		"variable-forgotten-by-the-store-gets-a-new-type": 1500,
 	}
 	for _, op := range assignOps {
 		for _, cur := range curKinds {
@@ -253,6 +255,84 @@ func (p c03) Run(c *core.Ctx) {
 	if !c.Failed() {
 		p.twoRunnersOneStore(c)
 	}
+	if !c.Failed() {
+		p.typeGoesWithTheVariable(c)
+	}
+}
+
+// typeGoesWithTheVariable: "a variable never changes type once it has one" is about variables the store holds.
+// When the host empties the store (Clear, a "new game") or restores a snapshot that does not have the variable,
+// the variable is unknown again: the next set / declare gives it whatever type its value has.
+func (p c03) typeGoesWithTheVariable(c *core.Ctx) {
+	r := c.R
+	decl := r.Pick("<<declare $x = 1>>", "<<set $x to 1>>", "<<declare $x = 1 as number>>", "<<set $x to 1>>\n<<set $x += 1>>")
+	again := r.Pick("<<set $x to \"text\">>", "<<declare $x = \"text\">>", "<<set $x = \"te\" + \"xt\">>")
+	script := "title: Start\n---\na\n" + decl + "\nb {$x > 0}\n<<jump Three>>\n===\ntitle: Three\n---\n" + again + "\nc {$x}\n===\n"
+	useDef := r.Bool()
+	rec := mon.NewRecStorer()
+	def := variable.NewInMemoryStorer()
+	var st variable.Storer = rec
+	if useDef {
+		st = def
+	}
+	rr, err, pan := mon.Create(st, "", []string{script})
+	if err != nil || pan != "" {
+		c.Violate("the script of the forgotten-variable scenario failed to load", map[string]any{"readers": []string{script}, "error": fmt.Sprint(err), "panic": pan})
+		return
+	}
+	var trace []string
+	step := func() mon.Obs { o := rr.Next(0); trace = append(trace, o.String()); return o }
+	fail := func(what string) {
+		c.Violate("a variable the store no longer holds is an unknown variable: "+what, map[string]any{"readers": []string{script}, "default_store": useDef, "trace": trace})
+	}
+	if o := step(); o.Kind != mon.KLine || o.Text != "a" {
+		fail("first line not shown")
+		return
+	}
+	if o := step(); o.Kind != mon.KLine || o.Text != "b True" {
+		fail("second line should be \"b True\"")
+		return
+	}
+	how := r.Intn(3)
+	switch how {
+	case 0:
+		// the host wipes the store and lets the dialogue go on
+		if useDef {
+			def.Clear()
+		} else {
+			rec.Clear()
+		}
+		trace = append(trace, "host: Clear()")
+	case 1:
+		// a hand-built snapshot of node Three without variables
+		if err := rr.RestoreAt(&ysgo.Snapshot{CurrentNode: "Three"}); err != nil {
+			fail("RestoreAt of a snapshot of node Three failed: " + err.Error())
+			return
+		}
+		trace = append(trace, "host: RestoreAt({CurrentNode: Three, no variables})")
+	case 2:
+		if err := rr.RestoreAt(&ysgo.Snapshot{CurrentNode: "Three", Variables: map[string]variable.Value{"other": *variable.NewBoolean(true)}, VisitedNodes: map[string]int{"Start": 1}}); err != nil {
+			fail("RestoreAt of a snapshot of node Three failed: " + err.Error())
+			return
+		}
+		trace = append(trace, "host: RestoreAt({CurrentNode: Three, Variables: {other: true}})")
+	}
+	if o := step(); o.Kind != mon.KLine || o.Text != "c text" {
+		fail("after the variable was removed from the store, giving it a string must succeed and show \"c text\"")
+		return
+	}
+	var got map[string]variable.Value
+	if useDef {
+		got = def.GetValues()
+	} else {
+		got = rec.GetValues()
+	}
+	if v, ok := got["x"]; !ok || v.String == nil || *v.String != "text" || v.Number != nil {
+		fail(fmt.Sprintf("the store should hold $x as the string \"text\" only, it holds %+v", got))
+		return
+	}
+	c.Feature("variable-forgotten-by-the-store-gets-a-new-type")
+	c.FeatureN("statements", 4)
 }
 
 // twoRunnersOneStore: the host gives ONE store to two runners (two conversations of one game) and steps them in
